@@ -126,6 +126,35 @@ def add_mutations(d, counts, rng):
     return d
 
 
+def add_offedge_mutations(d, rng, k):
+    """k mutations that sit on NO edge (valid tskit input): above the root of the local tree at a
+    fresh position, or -- where a node is in no edge at that position -- on that isolated node.
+    They must not enter any edge likelihood."""
+    ts = ts_from_dict(d)
+    used = set(d["sites"])
+    sites = list(d["sites"])
+    muts = list(d["mutations"])
+    L = d["L"]
+    for _ in range(k):
+        for _try in range(100):
+            x = round(rng.random() * L, 6)
+            if 0 <= x < L and x not in used:
+                break
+        else:
+            continue
+        tree = ts.at(x)
+        cands = list(tree.roots)
+        # samples that are isolated in this tree are roots too; any root will do
+        u = rng.choice(cands)
+        used.add(x)
+        sites.append(x)
+        muts.append([len(sites) - 1, int(u)])
+    out = dict(d)
+    out["sites"] = sites
+    out["mutations"] = muts
+    return canon(out)
+
+
 def ts_from_dict(d):
     import tskit
     tables = tskit.TableCollection(d["L"])
@@ -270,7 +299,12 @@ def random_prior(rng, d, G, zero_first=None, zeros=0.05):
     return pr
 
 
-def make_case(rng, d, grid=None, space=None, eps=None, mu=None, **opts):
+def make_case(rng, d, grid=None, space=None, eps=None, mu=None, offedge=None, **opts):
+    # half of the cases carry 1-3 mutations above a (local) root: they are on no edge
+    if offedge is None:
+        offedge = rng.choice([0, 0, 1, 2, 3])
+    if offedge:
+        d = add_offedge_mutations(d, rng, offedge)
     G = None
     grid = grid or random_grid(rng)
     G = len(grid)
@@ -286,6 +320,7 @@ def make_case(rng, d, grid=None, space=None, eps=None, mu=None, **opts):
         "mu": mu if mu is not None else round(rng.choice([0.2, 1.0, 3.0]) / span, 6),
         "eps": eps if eps is not None else rng.choice([1e-6, 1e-8, 1e-3, 0.1]),
         "space": space or rng.choice([LIN, LOG]),
+        "offedge_mutations": len(d["mutations"]) - sum(edge_mutation_counts(d)),
     }
     case.update(opts)
     return case
@@ -488,7 +523,8 @@ def summary(case):
     d = case["ts"]
     ts = ts_from_dict(d)
     return {"nodes": len(d["nodes_time"]), "edges": len(d["edges"]), "trees": int(ts.num_trees),
-            "muts": len(d["mutations"]), "grid": case["grid"], "space": case["space"],
+            "muts": len(d["mutations"]), "muts_on_no_edge": case.get("offedge_mutations", 0),
+            "grid": case["grid"], "space": case["space"],
             "eps": case["eps"], "mu": case["mu"]}
 
 
